@@ -175,7 +175,9 @@ func jsonCells(tier string) []cells.Cell {
 		"obj>map>obj":   spec.Obj(spec.P("m", &spec.Schema{Type: "object", Add: spec.Obj(spec.P("k", spec.T("string")))})),
 		"arr>nullable":  spec.Arr(spec.T("string").Null()),
 		"obj+props+map": {Type: "object", Props: []spec.Prop{spec.P("key", spec.T("string")), spec.P("n", spec.TF("integer", "int32"))}, Required: []string{"key"}, Add: spec.TF("integer", "int32")},
-		"time-props":    spec.Obj(spec.P("t", spec.TF("string", "date-time")), spec.P("ts", spec.Arr(spec.TF("string", "date-time")))).Req("t"),
+		// required names in declaration order, which is not the sorted order
+		"req-unsorted": spec.Obj(spec.P("id", spec.TF("integer", "int32")), spec.P("name", spec.T("string")), spec.P("email", spec.T("string")), spec.P("zip", spec.T("string")), spec.P("active", spec.T("boolean"))).Req("zip", "id", "name", "email"),
+		"time-props":   spec.Obj(spec.P("t", spec.TF("string", "date-time")), spec.P("ts", spec.Arr(spec.TF("string", "date-time")))).Req("t"),
 	}
 	for _, n := range spec.SortedKeys(nest) {
 		s, _, _ := cells.Base()
